@@ -870,6 +870,20 @@ func (w *World) evalCall(env *CEnv, e *CExpr) *Val {
 		key := w.cellKey(w.sortOf(et))
 		env.noteRead(key, p.T)
 		return &Val{T: sel(w.hget(env.state(), key), p.T), Typ: et}
+	case "captured":
+		// captured(v): the value the captured variable v holds in the state the clause talks about
+		// (a bare v is the value it held when the closure was entered)
+		if len(args) != 1 || args[0].Op != "id" {
+			unsupported("captured() takes the name of a captured variable")
+		}
+		p, ok := env.vars["&"+args[0].Name]
+		if !ok {
+			unsupported("captured(%s): not a captured variable", args[0].Name)
+		}
+		et := deref(p.Typ)
+		key := w.cellKey(w.sortOf(et))
+		env.noteRead(key, p.T)
+		return &Val{T: sel(w.hget(env.state(), key), p.T), Typ: et}
 	case "backing":
 		x := ev(0)
 		et := x.Typ.Underlying().(*types.Slice).Elem()
